@@ -12,6 +12,8 @@ import re
 def _enforce_number(self, val):
     if val <= 0:
         raise ValueError(f"Transform number must be > 0. {val} given.")
+    if self._problem:
+        self._problem.transforms.check_number(val)
 
 
 class Transform(data_input.DataInputAbstract, Numbered_MCNP_Object):
